@@ -92,3 +92,86 @@ func VerifUpgradeUnmarshal(data []byte) (noRequest, noResponse, heartbeat, strea
 	_, err = u.Unmarshal(data)
 	return u.NoRequest, u.NoResponse, u.Heartbeat, u.Stream, err
 }
+
+// VerifQueue drives the Transport's idle queue (connQueue) with small integers standing for connections (0 is nil).
+type VerifQueue struct {
+	q   *connQueue
+	pcs map[int]*persistConn
+	ids map[*persistConn]int
+}
+
+// NewVerifQueue returns an empty idle queue of the given capacity.
+func NewVerifQueue(capacity int) *VerifQueue {
+	return &VerifQueue{q: newConnQueue(capacity, "q"), pcs: map[int]*persistConn{}, ids: map[*persistConn]int{}}
+}
+
+func (v *VerifQueue) pc(id int) *persistConn {
+	if id == 0 {
+		return nil
+	}
+	pc, ok := v.pcs[id]
+	if !ok {
+		pc = &persistConn{}
+		v.pcs[id] = pc
+		v.ids[pc] = id
+	}
+	return pc
+}
+
+func (v *VerifQueue) id(n *node) int {
+	if n == nil || n.value == nil {
+		return 0
+	}
+	return v.ids[n.value]
+}
+
+// Enqueue calls connQueue.Enqueue.
+func (v *VerifQueue) Enqueue(id int) bool { return v.q.Enqueue(v.pc(id)) }
+
+// Dequeue calls connQueue.Dequeue.
+func (v *VerifQueue) Dequeue() int {
+	pc := v.q.Dequeue()
+	if pc == nil {
+		return 0
+	}
+	return v.ids[pc]
+}
+
+// Front, Rear and Length call the queue's observers.
+func (v *VerifQueue) Front() int  { return v.id(v.q.Front()) }
+func (v *VerifQueue) Rear() int   { return v.id(v.q.Rear()) }
+func (v *VerifQueue) Length() int { return v.q.Length() }
+
+// VerifConns drives the Transport's per-address connection list (conns) the same way.
+type VerifConns struct {
+	c   *conns
+	pcs map[int]*persistConn
+	ids map[*persistConn]int
+}
+
+// NewVerifConns returns an empty connection list.
+func NewVerifConns() *VerifConns {
+	return &VerifConns{c: &conns{addr: "c"}, pcs: map[int]*persistConn{}, ids: map[*persistConn]int{}}
+}
+
+// Append calls conns.Append with a connection standing for id.
+func (v *VerifConns) Append(id int) {
+	pc, ok := v.pcs[id]
+	if !ok {
+		pc = &persistConn{}
+		v.pcs[id] = pc
+		v.ids[pc] = id
+	}
+	v.c.Append(pc)
+}
+
+// Delete and Cursor call the list's methods; List is its content.
+func (v *VerifConns) Delete(i int) { v.c.Delete(i) }
+func (v *VerifConns) Cursor() int  { return v.c.Cursor() }
+func (v *VerifConns) List() []int {
+	l := make([]int, 0, len(v.c.Conns))
+	for _, pc := range v.c.Conns {
+		l = append(l, v.ids[pc])
+	}
+	return l
+}
